@@ -2,6 +2,11 @@
   Driver/Batcher.lean — batcher cases (C02).
   header: `<id> batcher <S|F|A> <n>`; ops: `e <elem>`; outputs: `<idx> <elem> <elem> …`
   (one line per batch received downstream; `idx` = the `End::next()` call during which it arrived).
+
+  Component `abatcher` (same module): header `<id> abatcher A <n> <max_delay ms>`, ops
+  `e <elem> <elapsed ms>`: Adaptive mode with a scripted clock (hook `verif::set_batcher_elapsed`):
+  the `enqueue` of that element sees `last_send.elapsed() = elapsed`; the timer flag of the model is
+  `elapsed > max_delay`, computed from the same numbers.
 -/
 import Driver.Proto
 import NoirVerif.Model.Batcher
@@ -57,8 +62,52 @@ def oracle (single : Bool) (n : Nat) (script : List (Elem Val)) (impl : List (Na
     | some i => some s!"at element #{i}: received count does not match (held back after a flush, or received early)"
     | none => none
 
+/-- Spec side for the scripted clock: a batch is cut exactly when the buffer reaches `n`, the timer
+    has elapsed at an `enqueue`, or `End` flushes (`FlushBatch`, `FlushAndRestart`, `Terminate`) a
+    non-empty buffer — and at no other time. Result: (index of the call, size) of every batch. -/
+def expectedCuts (n maxDelay : Nat) : Nat → Nat → List (Elem Val × Nat) → List (Nat × Nat)
+  | _, _, [] => []
+  | len, i, (e, el) :: es =>
+    let len1 := if isEnqueued e then len + 1 else len
+    let cut := len1 > 0 && (isFlushPoint e || (isEnqueued e && (len1 ≥ n || el > maxDelay)))
+    let here := if cut then [(i, len1)] else []
+    match e with
+    | .term => here
+    | _ => here ++ expectedCuts n maxDelay (if cut then 0 else len1) (i + 1) es
+
+def handleTimed (c : Case) (n maxDelay : Nat) : Verdict :=
+  let es := c.ops.filterMap fun w => match w with
+    | ["e", e] => (parseElem e).map (·, 0)
+    | ["e", e, t] => (parseElem e).map (·, t.toNat?.getD 0)
+    | _ => none
+  -- what `End` consumes: up to and including the first `Terminate` (implicit one: elapsed 0)
+  let cons := es.takeWhile (fun p => !p.1.isTerm) ++ [(Elem.term, 0)]
+  let m : Mode := .adaptive n
+  let model := runScriptTimed m [] 0 (cons.map fun p => (p.1, decide (p.2 > maxDelay)))
+  let out := model.map fmtBatch
+  let impl := c.implOut.filterMap parseBatch
+  let cuts := expectedCuts n maxDelay 0 0 cons
+  let oracle :=
+    if impl.length ≠ c.implOut.length then some s!"unparsable implementation output {c.implOut}"
+    else match oracle false n (es.map (·.1)) impl with
+      | some e => some e
+      | none =>
+        if impl.map (fun p => (p.1, p.2.length)) != cuts then
+          some s!"batches cut at {impl.map fun p => (p.1, p.2.length)}, but size>=n / timer / flush cut exactly at {cuts}"
+        else none
+  let timerCuts := (cons.zip (List.range cons.length)).filter fun (p, i) =>
+    p.2 > maxDelay && isEnqueued p.1 && cuts.any (fun q => q.1 == i && q.2 < n) && !isFlushPoint p.1
+  let late := cons.any fun p => p.2 > 4 * maxDelay && p.1.isData
+  { out, oracle, nontrivial := out.length ≥ 2,
+    tags := ["modeAclk", s!"batches{min out.length 4}", s!"timerCuts{min timerCuts.length 3}",
+             s!"veryLate{if late then 1 else 0}", s!"equalDelay{if cons.any (fun p => p.2 == maxDelay) then 1 else 0}"] }
+
 def handle (c : Case) : Verdict :=
   match c.header with
+  | [_, _, "A", n, md] =>
+    match n.toNat?, md.toNat? with
+    | some n, some md => handleTimed c n md
+    | _, _ => { out := [], oracle := some "bad header", nontrivial := false }
   | [_, _, mode, n] =>
     match n.toNat? with
     | some n =>
